@@ -19,7 +19,7 @@ SPEC_FORMS = ('old', 'forall', 'exists', 'implies', 'ite', 'pow2', 'typeis', 'is
               'U', 'app', 'splice', 'Bst', 'appb', 'Bin', 'appbin', 'is_binstr', 'binval',
               'prefix_same', 'outside_same', 'chars_eq', 'allspaces', 'allchar', 'is_bool', 'oval',
               'isdigits', 'str2int', 'same_dict', 'dval', 'gh', 'ghat', 'same_ghosts', 'npow2', 'asref', 'allzero_bytes', 'chars', 'entry', 'is_ref', 'refof', 'aslist_vv',
-              'at_exit', 'has_exit', 'is_slice', 'slice_part')
+              'at_exit', 'has_exit', 'is_slice', 'slice_part', 'ndistinct', 'lc_idx', 'lc_inv', 'aslist_v', 'lc_map', 'at')
 
 
 def eval_call(eng, e, st, ctx):
@@ -35,6 +35,10 @@ def eval_call(eng, e, st, ctx):
             return
         if name in SPEC_FORMS and (ctx.spec or name in ('pow2',) or (ctx.module or '').startswith('spec.')):
             yield st, spec_form(eng, e, st, ctx)
+            return
+        if name in eng.reg.predicates and ctx.spec:
+            for st2, args in eng.ev_list(e.args, st, ctx):
+                yield st2, call_predicate(eng, ctx, st2, name, args)
             return
         if name in eng.spec_funcs and ctx.spec:
             for st2, args in eng.ev_list(e.args, st, ctx):
@@ -479,6 +483,24 @@ def spec_form(eng, e, st, ctx):
         for f in tmp.pc[n0:]:
             st.assume(f)
         return sv
+    if name == 'ndistinct':
+        return SV(INT, ndistinct(eng, st, ev1(a[0])))
+    if name in ('lc_idx', 'lc_inv'):
+        # the index maps of a filtering list comprehension (ghosts of its result list): lc_idx(r, k) = source position of
+        # result element k (strictly increasing), lc_inv(r, i) = result position of source element i (for those that pass)
+        r = ev1(a[0])
+        g = eng.get_ghost(st, name, _AI, r.z)
+        return SV(INT, z3.Select(g, ev1(a[1]).z))
+    if name == 'lc_map':
+        # lc_map(r, 'lc_idx' | 'lc_inv'): the whole index map of a filtering comprehension's result list (an Int -> Int array)
+        from .engine import BITS
+        r = ev1(a[0])
+        return SV(BITS, eng.get_ghost(st, a[1].value, _AI, r.z))
+    if name == 'at':
+        return SV(INT, z3.Select(ev1(a[0]).z, ev1(a[1]).z))
+    if name == 'aslist_v':
+        x = ev1(a[0])
+        return SV(ListT(VAL), Val.rval(eng.coerce(x, VAL).z))
     if name == 'is_slice':
         v = eng.coerce(ev1(a[0]), VAL).z
         return SV(BOOL, z3.And(Val.is_vref(v), Val.rval(v) > 0, eng.typeis(st, Val.rval(v), 'PySlice')))
@@ -762,6 +784,52 @@ def zpad(n, width):
     return z3.If(n >= 0, out, neg)
 
 
+_pred_funcs = {}
+
+
+def call_predicate(eng, ctx, st, name, args):
+    """opaque spec predicate (Registry.define): uninterpreted function of the argument values + ground definitional instance"""
+    from .engine import BITS, State, Ctx
+    params, body, _ = eng.reg.predicates[name]
+    if len(args) != len(params):
+        raise Unsupported('predicate %s: %d arguments expected' % (name, len(params)))
+    zargs = []
+    scratch = State()
+    scratch.alloc = st.alloc
+    bound = {}
+    for k, ((pn, pt), a) in enumerate(zip(params.items(), args)):
+        if isinstance(pt, ListT):
+            if not isinstance(a.ty, ListT) or sort_key(a.ty.elem) != sort_key(pt.elem):
+                raise Unsupported('predicate %s: argument %s must be %r, got %r' % (name, pn, pt, a.ty))
+            arr, n = eng.list_arr(st, a), eng.list_len(st, a)
+            zargs += [arr, n]
+            ref = I(-1000 - k)
+            lst = SV(pt, ref)
+            eng.list_set_raw(scratch, lst, n, arr)
+            bound[pn] = lst
+        else:
+            v = eng.coerce(a, pt)
+            zargs.append(v.z)
+            bound[pn] = v
+    key = (name, tuple(str(z.sort()) for z in zargs))
+    if key not in _pred_funcs:
+        _pred_funcs[key] = z3.Function('pred!' + name, *([z.sort() for z in zargs] + [z3.BoolSort()]))
+    term = _pred_funcs[key](*zargs)
+    c2 = Ctx(eng, None, None, spec=True)
+    c2.module = None
+    c2.bound = bound
+    c2.implicit = 'assume'
+    n0 = len(scratch.pc)
+    val = eng.spec_bool(body, scratch, c2)
+    wf = scratch.pc[n0:]
+    if wf:
+        st.assume(z3.And(wf))
+    import os
+    if not os.environ.get('PYVC_NO_PRED_DEF'):
+        st.assume(term == val)
+    return SV(BOOL, term)
+
+
 def call_spec_func(eng, ctx, st, name, args):
     node, pyf = eng.spec_funcs[name]
     if ctx.depth > 12:
@@ -806,7 +874,32 @@ def _args(eng, e, st, ctx):
         yield st2, args, kwargs
 
 
+_AI = z3.ArraySort(z3.IntSort(), z3.IntSort())
+ndistinct_f = z3.Function('ndistinct', _AI, z3.IntSort(), z3.IntSort())
+
+
+def ndistinct(eng, st, lst):
+    """len(set(l)) for a list of ints: a function of (elements, length) with 0 <= nd <= n, nd >= 1 for a non-empty list,
+    nd == n iff the elements are pairwise distinct (L6)"""
+    n = eng.list_len(st, lst)
+    arr = eng.list_arr(st, lst)
+    nd = ndistinct_f(arr, n)
+    i, j = fresh('i', z3.IntSort()), fresh('j', z3.IntSort())
+    dup = z3.Exists([i, j], z3.And(0 <= i, i < j, j < n, z3.Select(arr, i) == z3.Select(arr, j)))
+    st.assume(z3.And(nd >= 0, nd <= n, z3.Implies(n >= 1, nd >= 1), dup == (nd < n)))
+    return nd
+
+
 def b_len(eng, e, st, ctx):
+    a0 = e.args[0] if e.args else None
+    if isinstance(a0, ast.Call) and isinstance(a0.func, ast.Name) and a0.func.id == 'set' and len(a0.args) == 1 and not a0.keywords \
+            and 'set' not in st.locals:
+        for st2, lst in eng.ev(a0.args[0], st, ctx):
+            if not (isinstance(lst.ty, ListT) and lst.ty.elem == INT):
+                raise Unsupported('len(set(%r))' % (lst.ty,))
+            eng.safe(ctx, st2, lst.z != 0, 'TypeError', 'set of None')
+            yield st2, SV(INT, ndistinct(eng, st2, lst))
+        return
     for st2, args, _ in _args(eng, e, st, ctx):
         x = args[0]
         t = x.ty
